@@ -6,7 +6,7 @@ MaxLog == atoi(IOEnv.PAR_MAXLOG)
 VARIABLES kind, len, threads
 Threads == IF IOEnv.PAR_THREADS = "all" THEN 1..64 ELSE {1, 2, 3, 4, 5, 7, 8, 9, 16, 17, 24, 32, 33, 63, 64}
 Init == /\ threads \in Threads
-        /\ \/ kind = "batch" /\ len \in {2 ^ k : k \in 3..MaxLog} \cup {1, 2, 3, 1023, 1025, 1500}
+        /\ \/ kind = "batch" /\ len \in {2 ^ k : k \in 3..MaxLog} \cup {1, 2, 3, 1023, 1025, 1500, 2049, 3000, 4097, 5000, 8193, 16385}
            \/ kind = "permute" /\ len \in {2 ^ k : k \in 10..MaxLog}
            \/ kind = "merkle" /\ len \in {2 ^ k : k \in 10..MaxLog}        \* len = number of leaf pairs (leaves / 2 >= 1024)
 Next == UNCHANGED <<kind, len, threads>>
